@@ -19,6 +19,11 @@ pub struct Ctx {
     pub replay_dir: String,
     pub threads: usize,
     pub started: Instant,
+    /// supervised runs (E3): directory where worker threads record the chunk they are working on
+    pub hb_dir: Option<String>,
+    /// trace mode (E3, after a crash): run only [lo, hi) of the named space, single-threaded,
+    /// recording every index before it is executed
+    pub trace: Option<(String, u64, u64)>,
 }
 
 /// Outcome of one call on the real implementation.
@@ -190,6 +195,21 @@ impl Report {
     /// walker along the chunk).
     pub fn sweep_chunked(&mut self, name: &str, n: u64, note: &str, f: impl Fn(u64, u64, &mut Acc) + Sync) {
         let t0 = Instant::now();
+        if let Some((space, lo, hi)) = self.ctx.trace.clone() {
+            if space == name {
+                let dir = self.ctx.hb_dir.clone().unwrap_or_else(|| "/tmp".into());
+                let mut acc = Acc::default();
+                for i in lo..hi.min(n) {
+                    std::fs::write(format!("{}/trace", dir), format!("{}\t{}", name, i)).ok();
+                    f(i, i + 1, &mut acc);
+                }
+                std::fs::write(format!("{}/trace", dir), format!("{}\tdone", name)).ok();
+                self.acc.merge(acc);
+            }
+            return;
+        }
+        let hb_dir = self.ctx.hb_dir.clone();
+        let hb_slot = AtomicU64::new(0);
         let threads = self.ctx.threads.max(1);
         let chunk = ((n / (threads as u64 * 64)).max(1)).min(1 << 20);
         let next = AtomicU64::new(0);
@@ -204,6 +224,7 @@ impl Report {
                     let _pin = pin_foreign_chunks();
                     let mut acc = Acc::default();
                     let mut mine = 0u64;
+                    let slot = hb_slot.fetch_add(1, Ordering::Relaxed);
                     loop {
                         if seen_violations.load(Ordering::Relaxed) > VIOLATION_CAP {
                             stopped.store(true, Ordering::Relaxed);
@@ -214,6 +235,9 @@ impl Report {
                             break;
                         }
                         let hi = (lo + chunk).min(n);
+                        if let Some(dir) = &hb_dir {
+                            std::fs::write(format!("{}/t{}", dir, slot), format!("{}\t{}\t{}", name, lo, hi)).ok();
+                        }
                         let r = catch_unwind(AssertUnwindSafe(|| f(lo, hi, &mut acc)));
                         if let Err(p) = r {
                             acc.violation(
